@@ -596,4 +596,13 @@ def reimport (S : State) : Option State :=
   | none => none
   | some S1 => some (reqs.foldl setReq S1)
 
+/-! ## the genesis tool `gentx-claim` (x/staking/client/cli/gentx.go)
+
+It appends the genesis validator's moniker record to the identity records of a genesis file and moves the id counter: the
+record gets `lastRecordId + 1` and the counter is INCREMENTED - whatever ids the file already holds (an export after
+deletions has gaps). -/
+def gentxClaim (S : State) (addr : Nat) (moniker : String) (date : Nat) : State :=
+  { S with records := S.records ++ [{ id := S.lastRecordId + 1, addr := addr, key := "moniker", value := moniker, date := date, verifiers := [] }],
+           lastRecordId := S.lastRecordId + 1 }
+
 end Sekai.Ident
